@@ -53,8 +53,11 @@ GPMF_NOTE = ("Trusted: Coq kernel + vm_compute; correspondence harness (KLV synt
 prop("C06",
      axioms="reals",
      design_ref="DESIGN.md section 5 C06",
-     technique="Rocq proof (big-endian value round trip, value counts, walker = pruned preorder) + in-Coq correspondence of the reader model against Reader.Read/Walk on synthesised KLV forests and every prefix",
-     text="Theorems about the Gallina port of Reader.read/Element.format: integer and fixed-point values of every width decode to "
+     technique="Rocq proof (reader inverts encoder on every well-formed forest, trailing bytes become siblings, every strict cut is an error, big-endian value round trip, value counts, walker = pruned preorder) + in-Coq correspondence of the reader model against Reader.Read/Walk on synthesised KLV forests and every prefix",
+     text="Theorems about the Gallina port of Reader.read/Element.format: read (encode_forest ts) = map abstract ts for every well-formed forest "
+          "of any depth and width (C06_reader_inverts_encoder, by induction on tree size), read (encode t ++ rest) = abstract t :: read rest "
+          "(C06_siblings_not_children), cutting an element's encoding anywhere strictly inside it is an error whatever precedes it "
+          "(C06_truncated_is_error); integer and fixed-point values of every width decode to "
           "the encoded value over the full range, an element exposes size*repeat/width values in order, the walker visits the "
           "pre-order and prunes exactly skipped sub-trees.  The reader model (header, payload, padding, nested limit, formatters) is "
           "tied to the code by comparing whole dumped trees and walker logs on generated forests, their prefixes and the repository's raw captures.",
@@ -81,14 +84,15 @@ prop("C07",
 prop("C09",
      axioms="reals",
      design_ref="DESIGN.md section 5 C09",
-     technique="Rocq proof that the reader model never reaches a panic site nor exhausts its fuel, for all byte strings + correspondence on hostile inputs (reader) and hostile MP4 sample tables (decoder) under recover/watchdog",
+     technique="Rocq proof that neither the reader model (all byte strings) nor the MP4 sample-table decoder model (all tables, payloads, tracks) reaches a panic site or exhausts its fuel + correspondence on hostile inputs (reader) and hostile MP4 sample tables (decoder) under recover/watchdog",
      text="C09_reader_total: for every byte string the Gallina port of Reader.read (all panic sites explicit, loop on fuel) returns Ok or Err.  "
+          "C09_decoder_total: for arbitrary stts/stsc/stsz/stco contents, payload bytes and tracks the port of decodeTrak/Decode returns Ok or Err.  "
           "The proof found a real crash (nested FACE, D23, fixed).  The model is tied to the code on random bytes, mutated streams and captures; a panic "
           "or timeout of the implementation is a violation whatever the model says.",
      rule="one case = one byte string (named cases of the statement; random bytes; bit flips, truncations, header-field overwrites, splices on generated "
           "streams/forests and on the first DEVC of the raw captures); distinct = distinct bytes; non-trivial = at least 12 bytes",
      assumptions=["'never hangs' is proved for the code's own loops (fuel = input length + 1); a blocking io.Reader is outside the model and only watched by a 10 s watchdog",
-                  "the MP4 decoder half (sample tables) is covered with C08's model"],
+                  "the MP4 decoder half uses C08's model of the sample-table walk; box parsing itself is mp4ff's (outside the model, exercised by the hostile-table cases)"],
      note=GPMF_NOTE)
 
 prop("C16",
@@ -253,8 +257,8 @@ LT_NOTE = ("Trusted: Coq kernel + vm_compute; correspondence harness (reflective
 prop("C01",
      axioms="reals",
      design_ref="DESIGN.md section 5 C01",
-     technique="Rocq proof of the text round trip (escape + filter + strict reader, all strings) + byte-exact in-Coq model of the encoder and of decode-after-encode checked against the real codec on generated databases; database-level round trip is PARTIAL (correspondence, not theorem)",
-     text="Proved: every text of valid XML characters survives escape -> line filter -> strict reader; integer-like leaves are fixed points; the faithful model exhibits D22 "
+     technique="Rocq proof of the text round trip (all strings) and of the duration and date leaf round trips (all durations below 2^62 ns, all instants 1969-2068) + byte-exact in-Coq model of the encoder and of decode-after-encode checked against the real codec on generated databases; database-level round trip is PARTIAL (correspondence, not theorem)",
+     text="Proved: every text of valid XML characters survives escape -> line filter -> strict reader; integer-like leaves are fixed points; durations MM:SS.cc come back floored to 1/100 s for every 0 <= d < 2^62 (C01_duration_roundtrip, decimal print/scan inverse by induction) and are then fixed points; dates come back floored to 1 s / 1/100 s for every instant 1969-01-01..2068-12-31 (C01_date_roundtrip: calendar bijection swept over all 36525 days inside Coq, time of day by arithmetic); the faithful model exhibits D22 "
           "(C01_reencode_omitempty_refuted).  Not proved as a theorem (partial): dec(enc v) = quant v and enc(quant v) = enc v for all databases - this is checked per generated "
           "database: the model's encoder must produce the very bytes Encode wrote, Decode's value must equal the model's quant(v) leaf by leaf, the re-encoding must be identical, "
           "gzip must gunzip to the plain bytes and the windows-1252 transcoding must decode to the same value; the reflected xml-tag schema must equal the recorded one.",
